@@ -16,4 +16,10 @@ struct L_1f71b25bad _ZN5QXmpp7Private13SaslMechanism10fromStringE11QStringView(u
   ASSERT(ok, "C05 cut: fromString called on something that is not a whole table name");
   F_vp_c05_make_mech(id, (char*)buf);
   struct L_1f71b25bad r = { buf[0], buf[1] }; return r; }
+/* QXmppSaslClient::create(SaslMechanism, QObject*): in the cut groups no SASL client object is ever needed - the choice
+   instances stop at chooseMechanism and the mismatch instances assume that nothing qualifies, so creating a client there is
+   already the violation.  The cut counts the calls and hands back "no client" (unique_ptr == nullptr). */
+static uint32_t c05_clients_created;
+void _ZN15QXmppSaslClient6createEN5QXmpp7Private13SaslMechanismEP7QObject(char *ret, uint64_t m0, uint8_t m1, char *parent) { c05_clients_created++; *(char**)ret = 0; }
+uint32_t vp_c05_clients_created(void) { return c05_clients_created; }
 #endif
